@@ -26,6 +26,64 @@ def error_templates(enum):
     return out
 
 
+def display_templates(facts, en):
+    """{variant: template} of an error enum: the `#[error("..")]` templates, or — for a hand-written `impl Display` — what its
+    `fmt` writes for each variant, found by interpreting it with the formatter as a string that is written to (vlib/emit.py).
+    Payload fields appear as {0}, {1}, ..; a piece that is neither constant text nor a payload field appears as {?..}.
+    -> (templates, problems)"""
+    enum = facts.enum(en)
+    out = error_templates(enum)
+    if len(out) == len(enum["variants"]):
+        return out, []
+    from .. import emit
+
+    key = next((k_ for k_ in facts.fns if re.match(r"^<%s as (?:std::fmt::|fmt::|core::fmt::)?Display>::fmt$" % re.escape(en), k_)), None)
+    if key is None:
+        return out, ["%s: variants without #[error] template and no hand-written Display impl" % en]
+    fn = facts.fns[key]
+    fname = next((n for n, t_ in fn.params if n and n != "self"), None)
+    it = emit.Interp(facts)
+    probs = []
+    try:
+        res = it.run_fn(key, bindings={fname: emit.S([])})
+    except Exception as e:  # fail closed
+        return out, ["%s: Display impl could not be interpreted: %s" % (en, e)]
+    names = {v["name"] for v in enum["variants"]}
+    for st, rv in res:
+        if st.unknown:
+            probs.append("%s: construct not understood in Display: %s" % (en, st.unknown[:2]))
+            continue
+        variants = []
+        for subj, lab in st.conds:
+            if subj == "self" and isinstance(lab, tuple):
+                variants = [x.split("::")[-1] for x in lab]
+        txt = st.env.get(fname)
+        if not emit.is_str(txt):
+            probs.append("%s: the formatter is not only written to" % en)
+            continue
+        t = ""
+        for pc in emit.flat_parts(txt["parts"]):
+            if pc[0] == "c":
+                t += pc[1]
+            elif pc[0] == "h":
+                cn = emit.canon(pc[1])
+                m_ = re.fullmatch(r"\$%s::[A-Za-z_|]+\.(\d+)" % re.escape(en), cn)
+                t += "{%s}" % m_.group(1) if m_ else "{?%s}" % cn
+            else:
+                t += "{?%s}" % pc[0]
+        for vn in variants or sorted(names - set(out)):
+            if vn in out and out[vn] != t:
+                # several paths for one variant (an optional tail): keep the shortest — every path must satisfy the rules
+                if len(t) < len(out[vn]):
+                    out[vn] = t
+            else:
+                out.setdefault(vn, t)
+    miss = sorted(names - set(out))
+    if miss:
+        probs.append("%s: no text found for variants %s" % (en, miss))
+    return out, probs
+
+
 def pat_matches(p, val):
     """val: 'S' (Some) or 'N' (None)"""
     if rx.is_catchall(p):
@@ -216,8 +274,9 @@ def run(c, facts, tier):
         same = a0 is not None and a0 == a1 and calls_inner[0]["args"][0]["k"] == "ref" and calls_inner[0]["args"][0]["mut"]
     c.ob("C18.reread", pub.key, "dispatch reads from the input position the parser left", same, "the same `&mut input` binding is passed to the inner parser and to dispatch: %s" % same)
     # C18.total
-    se = facts.enum("SyntaxError")
-    tmpl = error_templates(se)
+    tmpl, tprobs = display_templates(facts, "SyntaxError")
+    if tprobs:
+        c.ob("C18.total", "SyntaxError", "message of every variant is known", None, "; ".join(tprobs))
     c.ob("C18.total", disp.key, "dispatch is decided for every (test, action, global, description) class", reread_err is None, "evaluated by cases on the derived context" if reread_err is None else reread_err)
     if reread_err is None:
         kws = {"test": "-kwt", "action": "-kwa", "global": "-kwg"}
@@ -256,10 +315,10 @@ def run(c, facts, tier):
         c.ob("C18.total", disp.key, "(no category) quotes the word", okn, "variant %s, message %r" % (variant, [tmpl.get(v_) for v_ in variant] if isinstance(variant, list) else None))
     # C18.nonempty
     for en in ("SyntaxError", "ParserError", "GrammarError"):
-        for v, t in error_templates(facts.enum(en)).items():
+        for v, t in display_templates(facts, en)[0].items():
             const = re.sub(r"\{[^}]*\}", "", t).strip()
             c.ob("C18.nonempty", en, v, len(const) >= 3, "template %r has constant text %r" % (t, const), nontrivial=False)
-    wrap = error_templates(facts.enum("ParserError"))
+    wrap = display_templates(facts, "ParserError")[0]
     c.ob("C18.nonempty", "ParserError", "wrapper shows the inner message", all("{0}" in t for t in wrap.values()) and len(wrap) == len(facts.variants("ParserError")), "wrappers %s" % wrap, nontrivial=False)
     c.control("C18.total", not pat_matches({"k": "tstruct", "segs": ["Some"], "elems": []}, "N"), "pattern matcher distinguishes Some from None")
 
